@@ -35,16 +35,38 @@ def getUrlOk (j : Json) : Except String (Bytes → Bool) := do
     else throw "urls entry must be a pair"
   pure fun b => (tbl.lookup b).getD false
 
+def errnoOf (name : String) (n : Nat) : Errno :=
+  match name with
+  | "ENOENT" => .ENOENT | "ENOTDIR" => .ENOTDIR | "EBADF" => .EBADF | "ELOOP" => .ELOOP
+  | "ENAMETOOLONG" => .ENAMETOOLONG | "EACCES" => .EACCES | "EIO" => .EIO
+  | "EOVERFLOW" => .EOVERFLOW | "ESTALE" => .ESTALE
+  | _ => .other n
+
+/-- one answer of `os.stat`: ["file", size] | ["dir", size] | ["other", size] |
+    ["err", "ENAME…", errno] | ["bad"] (ValueError: embedded null byte) -/
+def getStat (e : Json) : Except String Stat := do
+  let a ← e.getArr?
+  match a.toList with
+  | [k, n] =>
+    match (← k.getStr?) with
+    | "file" => pure (.file (← n.getNat?))
+    | "dir" => pure (.dir (← n.getNat?))
+    | "other" => pure (.other (← n.getNat?))
+    | t => throw s!"unknown stat kind {t}"
+  | [k, name, n] =>
+    if (← k.getStr?) == "err" then pure (.err (errnoOf (← name.getStr?) (← n.getNat?)))
+    else throw "stat answer with three fields must be an error"
+  | [k] => if (← k.getStr?) == "bad" then pure .badPath else throw "unknown stat answer"
+  | _ => throw "malformed stat answer"
+
+/-- {"root": stat, "files": [stat, …]} — what the OS answers for `Torrent.path` and for the joined
+    path of each listed file (by index; an index beyond the list counts as ENOENT) -/
 def getFs (j : Json) : Except String FsOracle := do
   let f := j.getObjValD "fs"
   if f.isNull then pure noPath else
-    let files ← (← getArr f "files").mapM fun e => do
-      let a ← e.getArr?
-      if h : a.size = 3 then
-        pure ({ exists_ := (← a[0].getBool?), isFile := (← a[1].getBool?), size := (← a[2].getNat?) } : FileFact)
-      else throw "file fact must be a triple"
-    pure { hasPath := true, rootIsFile := (← getBool f "rootIsFile"), rootIsDir := (← getBool f "rootIsDir"),
-           rootSize := (← getNat f "rootSize"), files := files }
+    let files ← (← getArr f "files").mapM getStat
+    let root ← getStat (← f.getObjVal? "root")
+    pure { hasPath := true, root := root, fileStat := fun i => files.getD i (.err .ENOENT) }
 
 def getItems (j : Json) : Except String Items := do
   match (← getPy j "md") with
@@ -112,7 +134,10 @@ def eval (j : Json) : Except String Json := do
                ("wf", jbool (Codec.wf (.dict md))),
                ("hypMagnet", jbool (magnetTailOk urlOk md)),
                ("filesIsDict", jbool filesIsDict),
-               ("hypThm", jbool (outsideD07f fs md))]
+               ("hypThm", jbool (outsideD07f fs md)),
+               -- C07_fs_failure_invisible: the same results in the world with every failure blurred to ENOENT
+               ("blurSame", jbool ((resUnit (validate urlOk fs.blur md)).compress == (resUnit v).compress &&
+                                   (resBytes (dump urlOk fs.blur md)).compress == (resBytes d).compress))]
 
 /-- op `c07.sound`: {bytes, urls} ↦ the executable specification on arbitrary bytes -/
 def sound (j : Json) : Except String Json := do
